@@ -722,6 +722,30 @@ pub fn run_trace(args: &[String]) {
     let svc = Arc::new(Service::start("certtrace"));
     let log: Arc<Mutex<Vec<Value>>> = Default::default();
     let mut hs = Vec::new();
+    // stalled peers: a client that makes a deviating call whose (large) error reply it never reads, and keeps its connection open
+    // while the others run.  The service is then blocked writing to it - on that connection only; every other client's canonical
+    // run must go through as if the peer were not there.
+    let stalled: usize = args.iter().find_map(|a| a.strip_prefix("--stalled=").and_then(|s| s.parse().ok())).unwrap_or(if clients >= 2 { 1 } else { 0 });
+    let mut parked: Vec<UnixStream> = Vec::new();
+    for _ in 0..stalled {
+        let mut conn = Conn::new(&svc.path);
+        if let Ok(v) = canonical(&mut conn, "Start", "") {
+            let id = v.as_str().unwrap_or("").to_string();
+            let _ = canonical(&mut conn, "Test01", &id);
+            // Test02 with the wrong value and a member nobody asked for, larger than any socket buffer; the error reply quotes it
+            let req = json!({"method": "org.varlink.certification.Test02", "parameters": {"client_id": id, "bool": false, "ballast": "x".repeat(6 << 20)}});
+            let mut b = serde_json::to_vec(&req).unwrap();
+            b.push(0);
+            if let Some(mut s) = conn.s.take() {
+                let _ = s.set_write_timeout(Some(Duration::from_secs(10)));
+                let _ = s.write_all(&b);
+                parked.push(s); // never read from
+            }
+        }
+    }
+    if stalled > 0 {
+        std::thread::sleep(Duration::from_millis(150)); // the service is now (trying to) answer the stalled peers
+    }
     for c in 0..clients {
         let (svc, log) = (svc.clone(), log.clone());
         hs.push(std::thread::spawn(move || {
@@ -754,6 +778,7 @@ pub fn run_trace(args: &[String]) {
     for h in hs {
         let _ = h.join();
     }
+    drop(parked);
     let mut f = std::io::BufWriter::new(std::fs::File::create(&outp).expect("trace"));
     let l = log.lock().unwrap();
     for e in l.iter() {
